@@ -2,6 +2,7 @@ package pbar
 
 import (
 	"io"
+	"sync"
 
 	"github.com/vbauerster/mpb/v8"
 	"github.com/vbauerster/mpb/v8/decor"
@@ -16,6 +17,8 @@ type Container struct {
 	p     *mpb.Progress
 	out   io.Writer
 	quiet bool
+	// mutex guards the lazy creation of p: bars are created from several goroutines
+	mutex sync.Mutex
 }
 
 func NewContainer(out io.Writer, quiet bool) *Container {
@@ -27,6 +30,8 @@ func NewContainer(out io.Writer, quiet bool) *Container {
 }
 
 func (c *Container) ensureProgress() {
+	c.mutex.Lock()
+	defer c.mutex.Unlock()
 	if c.p == nil {
 		c.p = mpb.New(mpb.WithOutput(c.out))
 	}
